@@ -491,8 +491,10 @@ def _measure_work(args):
         ast = X.parse(text)
         # script size: announced (script_size and ext.pk_cost) vs the specification's script
         real_len = decoder.Script(decoder.instructions(X.script(ast, ctx))).byte_len()
-        ss = [q for q in F.fns if q.endswith("miniscript::private::Miniscript::<Pk, Ctx>::script_size")]
-        if len(ss) == 1:
+        ss = [q for q in F.fns if q.endswith("Miniscript<Pk, Ctx>>::script_size") or q.endswith("Miniscript::<Pk, Ctx>::script_size")]
+        if len(ss) != 1:
+            out.append(("unanalysable", "Miniscript::script_size not found (%d candidates)" % len(ss)))
+        else:
             got = T_.m.call_callee({"def": ss[0], "resolved": ss[0], "name": "script_size", "targs": ["std::string::String", c06.CTX[ctx]]}, [ms])
             if got != real_len:
                 out.append(("bad", "script_size() = %r, the script has %d bytes" % (got, real_len)))
@@ -502,8 +504,10 @@ def _measure_work(args):
         # the public accessors read the same figures
         for nm, want_of in (("max_satisfaction_size", lambda d: d.fields["max_witness_stack_size"]),
                             ("max_satisfaction_witness_elements", lambda d: d.fields["max_witness_stack_count"] + 1)):
-            q = [x for x in F.fns if x.endswith("miniscript::private::Miniscript::<Pk, Ctx>::" + nm)]
-            if len(q) == 1:
+            q = [x for x in F.fns if x.endswith("Miniscript<Pk, Ctx>>::" + nm) or x.endswith("Miniscript::<Pk, Ctx>::" + nm)]
+            if len(q) != 1:
+                out.append(("unanalysable", "Miniscript::%s not found (%d candidates)" % (nm, len(q))))
+            else:
                 rr = T_.m.call_callee({"def": q[0], "resolved": q[0], "name": nm, "targs": ["std::string::String", c06.CTX[ctx]]}, [ms])
                 if sd.variant == "Some":
                     w_ = want_of(sd.fields["0"])
